@@ -83,7 +83,16 @@ func (sm scriptModule) ExecuteNewCall(ctx context.Context, call *wasm.Call, cach
 		sb.WriteByte('|')
 		switch in.Kind {
 		case "source":
-			sb.WriteByte('S')
+			// the block itself: present in every legitimate execution (a module whose only input is an absent block
+			// is not executed at all). Executed WITHOUT it — tier 2 skipped the block source although this module
+			// needed it — a real module would compute on an empty block: here the digest says so and store scripts
+			// shift their values, so that the difference is visible downstream
+			if v, ok := argValues[BlockType]; ok && v != nil {
+				sb.WriteByte('S')
+			} else {
+				sb.WriteString("S~")
+				extra += 1000
+			}
 		case "clock":
 			sb.WriteByte('C')
 		case "params":
@@ -174,6 +183,10 @@ func (sm scriptModule) ExecuteNewCall(ctx context.Context, call *wasm.Call, cach
 			switch o.Kind {
 			case "set":
 				call.DoSet(o.Ord, key, []byte(txt))
+			case "burst": // many keys in one block: key_0 … key_39
+				for i := int64(0); i < 40; i++ {
+					call.DoSet(o.Ord, key+"_"+strconv.FormatInt(i, 10), []byte(strconv.FormatInt(v+i, 10)))
+				}
 			case "sine":
 				call.DoSetIfNotExists(o.Ord, key, []byte(txt))
 			case "app":
